@@ -141,7 +141,7 @@ def oracle(c, o):
             if not oA.get("ParsePanic") and not oB.get("ParsePanic") and (tiny_entries(oA) or tiny_entries(oB)):
                 KNOWN.append("K-C09-assembly-cutoff: a generated structure solves in one unit system only (stiffness terms under the absolute 1e-10 cut-off)")
                 continue
-            if marginal(oA) or marginal(oB):
+            if (marginal(oA) or marginal(oB)) and SPEC.get("proof_ok", True):
                 KNOWN.append("K-C09-absolute-residual-threshold: a generated structure at the edge of the solver's iteration budget solves in one unit system only")
                 continue
             fails.append("%s: solved = %s, but the original solved = %s (%s)" % (what, M.solved(oB), M.solved(oA),
